@@ -278,7 +278,15 @@ func (m *MuxMon) Step(h *MuxH, i int) (vs []Viol) {
 	case "pkt":
 		// caller-built packets: not the Muxer's PIDs; C04 alignment was checked above
 		valid := c.Op.Pkt == "null" || c.Op.Pkt == "ownpid" || c.Op.Pkt == "afonly" || c.Op.Pkt == "short" || c.Op.Pkt == "shortaf" || c.Op.Pkt == "priv0pkt" || c.Op.Pkt == "staleaf" || c.Op.Pkt == "fitpriv" || c.Op.Pkt == "fitpcrext" ||
-			c.Op.Pkt == "scr1" || c.Op.Pkt == "scr2" || c.Op.Pkt == "scr3" || c.Op.Pkt == "teiprio"
+			c.Op.Pkt == "onebyte" || c.Op.Pkt == "scr1" || c.Op.Pkt == "scr2" || c.Op.Pkt == "scr3" || c.Op.Pkt == "teiprio"
+		if c.Op.Pkt == "onebytepcr" {
+			// contradictory struct (marked as the one-byte field, yet carrying a PCR): written in the one-byte form or
+			// refused - 188 bytes or nothing
+			if c.Err == nil && len(out) != 188 {
+				add("C04", "accepted-packet-not-188-bytes:"+c.Op.Pkt, "accepted packet delivered %d bytes", len(out))
+			}
+			return
+		}
 		if c.Op.Pkt == "stalefit" {
 			// a payload attached to a packet whose header says "no payload": refusing it or writing the packet without
 			// it are both fine - what reaches the writer is one whole packet or nothing (alignment is checked above)
